@@ -181,9 +181,88 @@ def upv_obligations(chk, tag="", consts=False):
             return z3.BoolVal(bool(ok))
         chk.prove_paths(f"{tag}update_packed_value[{shape}]:a-plain-python-component-is-replaced-by-the-component-handed-back(its-type,its-wire,unused)/\\objects-get-their-own-wire", paths, post_c,
                         func=f"{UNP}:update_packed_value", replay=lambda m: {"script": REPLAY_UPV_CONST, "input": {}})
+    # a TUPLE with a plain Python component inside a list: tuples are immutable, so the component cannot be
+    # replaced in place — the whole tuple is replaced by the element handed back (fresh, unused, carrying the
+    # element's wire exactly once), and nothing of the handed-back element is consumed on the way
+    for shape in ("list[(obj,const)]", "list[(const,obj)]", "list[((obj,const),obj)]") if consts else ():
+        def t_t(it, shape=shape):
+            state, ty, GO = setup(it)
+            upv = it.lookup_global(e.module(UNP), "update_packed_value")
+            TT = it.lookup_global(e.module(UNP), "TupleType")
+            v = it.call(GO, [ty, "WIRE"], {})
+            it.call_method(v, "_use_wire", [None])       # it went into the array that was lent
+            cty = SObj(TY, {"copyable": SBool(z3.BoolVal(True)), "droppable": SBool(z3.BoolVal(True)), "linear": SBool(z3.BoolVal(False)), "name": "int"})
+            mk_tt = lambda els: SObj(TT, {"element_types": els, "copyable": SBool(cop), "droppable": SBool(dro), "linear": SBool(z3.And(z3.Not(cop), z3.Not(dro)))})  # noqa: E731
+            if shape == "list[(obj,const)]":
+                tup, tty = (v, 3), mk_tt([ty, cty])
+            elif shape == "list[(const,obj)]":
+                tup, tty = (3, v), mk_tt([cty, ty])
+            else:
+                v2 = it.call(GO, [ty, "WIRE2"], {})
+                it.call_method(v2, "_use_wire", [None])
+                tup, tty = ((v, 3), v2), mk_tt([mk_tt([ty, cty]), ty])
+            ops_log = []
+            builder = SObj(ClassVal("Builder", builtin=True), {})
+            e.ext_models["hugr.ops.UnpackTuple"] = lambda it2, a, k: "UnpackTuple"
+            builder.fields["add_op"] = Builtin("add_op", lambda op, *w: (ops_log.append((op, w)), SObj(ClassVal("Node", builtin=True), {"outputs": Builtin("outputs", lambda: iter(["T0", "T1"]))}))[1])
+            e.models["guppylang_internals.std._internal.compiler.array:unpack_array"] = lambda it2, a, k: ["OUT0"]
+            e.models["guppylang_internals.tys.builtin:is_array_type"] = lambda it2, a, k: True
+            e.models["guppylang_internals.tys.builtin:get_element_type"] = lambda it2, a, k: a[0].fields["elem"]
+            aty = SObj(TY, {"copyable": SBool(cop), "droppable": SBool(dro), "linear": SBool(z3.And(z3.Not(cop), z3.Not(dro))), "elem": tty})
+            new = it.call(GO, [aty, "WIRE_A"], {})
+            packed = [tup]
+            r = it.call(upv, [packed, new, builder], {})
+            return r, v, new, packed, tup, tty, GO, list(ops_log)
+        paths = e.explore(t_t)
+
+        def post_t(p):
+            if p.kind != "return":
+                return z3.BoolVal(False)
+            r, v, new, packed, tup, tty, GO, ops_log = p.value
+            sl = packed[0]
+            ok = r is True and new.fields["_used"] is not None and not ops_log
+            ok = ok and isinstance(sl, SObj) and sl.cls is GO and sl is not new and sl.fields["_ty"] is tty and sl.fields["_wire"] == "OUT0" and sl.fields["_used"] is None
+            ok = ok and v.fields["_wire"] == "WIRE" and v.fields["_used"] is not None        # the loose object stays consumed: ownership is in the list
+            return z3.BoolVal(bool(ok))
+        chk.prove_paths(f"{tag}update_packed_value[{shape}]:a-tuple-with-a-plain-python-component-is-replaced-as-a-whole-by-the-element-handed-back(unused,wire-not-consumed)", paths, post_t,
+                        func=f"{UNP}:update_packed_value", replay=lambda m: {"script": REPLAY_UPV_TUPLE, "input": {}})
     for k_ in ("guppylang_internals.std._internal.compiler.array:unpack_array", "guppylang_internals.tys.builtin:is_array_type", "guppylang_internals.tys.builtin:get_element_type"):
         e.models.pop(k_, None)
     chk.use_engine(e)
+
+
+REPLAY_UPV_TUPLE = r'''
+import tempfile, importlib.util, os, sys, shutil
+from guppylang_internals.error import GuppyError, GuppyComptimeError
+src = """from guppylang import guppy
+from guppylang.std.builtins import array, owned
+from guppylang.std.quantum import qubit, discard
+@guppy
+def bar(ps: array[tuple[qubit, int], 1]) -> None:
+    pass
+@guppy
+def eat(ps: array[tuple[qubit, int], 1] @owned) -> None:
+    for q, n in ps:
+        discard(q)
+@guppy.comptime
+def c() -> None:
+    q = qubit(); ps = [(q, 1)]; bar(ps); eat(ps)
+@guppy
+def r() -> None:
+    q = qubit(); ps = array((q, 1)); bar(ps); eat(ps)
+"""
+d = tempfile.mkdtemp(dir=os.environ.get("TMPDIR", "/var/tmp")); fn = os.path.join(d, "replay_c22t.py"); open(fn, "w").write(src)
+spec = importlib.util.spec_from_file_location("replay_c22t", fn); m = importlib.util.module_from_spec(spec); sys.modules["replay_c22t"] = m
+spec.loader.exec_module(m)
+res = {}
+for name in ("r", "c"):
+    try:
+        getattr(m, name).compile_function(); res[name] = "compiled"
+    except (GuppyError, GuppyComptimeError) as ex:
+        res[name] = "rejected: " + str(ex)[:100]
+shutil.rmtree(d, ignore_errors=True)
+print(json.dumps({"violates": res["r"] != res["c"], "observed": {"regular": res["r"], "comptime": res["c"]}, "required": "the comptime body is accepted like the regular one"}))
+'''
 
 
 REPLAY_UPV_CONST = r'''
